@@ -32,6 +32,7 @@ import EaselModel.Msa.LemmasRf3
 import EaselModel.Msa.LemmasSet
 import EaselModel.Msa.LemmasSample
 import EaselModel.Msa.LemmasHist
+import EaselModel.Msa.LemmasHist2
 /-! # C15 — alignment transformations keep the alignment well formed and the residues intact; WUSS round trips
 
 Property theorems only; proofs are glue on the lemmas of `EaselModel/Msa/Lemmas*.lean`.
@@ -1432,6 +1433,31 @@ example : Steps exRfText
     (.digitize _ _ generated_abcOk.1 (by decide))) (.col _ _ (by decide) (by decide))) (.revcomp _ (by decide))) (.textize _ (by decide))
 example : (textize (reverseComplement (columnSubset (digitize Gen.rnaAbc exRfText).msa [true, false, true, true]).msa).msa).msa.rows =
     [[0x41, 0x43, 0x55], [0x41, 0x2d, 0x55]] := by decide
+
+/-- HISTORIES WITH MARKUP: the chain may also contain `esl_msa_AddComment`, `esl_msa_AddGF`, `esl_msa_AddGS` (any tag,
+    any sequence `i < nseq`, repeated tags concatenated), `esl_msa_AppendGR` (the value must complete its slot to exactly
+    `alen` characters: `appendGR_contract_of_empty` — an empty slot and one full line) and `esl_msa_AppendGC` (a new tag,
+    one full line) — what the Stockholm parser does between the transformations — in any order and number: the alignment
+    reached is still well formed, the rebuilt tables keep their width `nseq`, tags stay distinct. -/
+theorem history_wellformed_markup (m m' : Msa) (h : Steps2 m m') (inv : Inv m) :
+    m'.WF ∧ (m'.isDigital = true → ∃ a, AbcOk a ∧ m'.abc = some a ∧ m'.codesOk a) ∧ (m'.isDigital = false → m'.abc = none) ∧
+    (m'.gs.map (·.1)).Nodup ∧ (m'.gr.map (·.1)).Nodup :=
+  let i := steps2_inv m m' h inv
+  ⟨i.wf, i.dig, i.txt, i.gsND, i.grND⟩
+
+/-- a GR line and a repeated GS tag added to a text alignment, then digitize and drop a column -/
+example : Steps2 exRfText
+    (columnSubset (digitize Gen.rnaAbc
+      { ({ ({ exRfText with gr := appendGR 2 [] [0x50] 1 [0x31, 0x32, 0x33, 0x34] } : Msa) with gs := addGS 2 [] [0x44] 0 [0x78] } : Msa) with
+          gs := addGS 2 (addGS 2 [] [0x44] 0 [0x78]) [0x44] 0 [0x79] }).msa [true, false, true, true]).msa :=
+  .tail _ _ _ (.tail _ _ _ (.tail _ _ _ (.tail _ _ _ (.tail _ _ _ (.refl _)
+    (.markup _ _ (.appendGR exRfText [0x50] 1 [0x31, 0x32, 0x33, 0x34] (by decide)
+      (appendGR_contract_of_empty 4 [0x50] 1 _ [] rfl ⟨rfl, by decide⟩))))
+    (.markup _ _ (.addGS _ [0x44] 0 [0x78] (by decide))))
+    (.markup _ _ (.addGS _ [0x44] 0 [0x79] (by decide))))
+    (.op _ _ (.digitize _ _ generated_abcOk.1 (by decide))))
+    (.op _ _ (.col _ _ (by decide) (by decide)))
+example : addGS 2 (addGS 2 [] [0x44] 0 [0x78]) [0x44] 0 [0x79] = [([0x44], [some [0x78, 0x0a, 0x79], none])] := by decide
 
 /-! ## esl_msa_Set{Name,Desc,Accession,Author,SeqName,SeqAccession,SeqDescription} and their esl_msa_Format* twins -/
 
